@@ -1,3 +1,57 @@
-From Coca Require Import Model.JavaFull Model.JavaIdent Model.JavaDeclSpec.
-Theorem placeholder : True. Proof. exact I. Qed.
-Print Assumptions placeholder.
+(* C01 -- Every declared Java type and method appears exactly once in the code model.
+   Only statements live here; every proof is [exact <lemma of Proofs/JavaFullProofs.v>]. *)
+From Coq Require Import String List Bool Arith.
+From Coca Require Import Lib.GoMap Lib.Str Model.CodeModel Model.JavaFull Model.JavaSelect Proofs.JavaFullProofs.
+Import ListNotations.
+Open Scope string_scope.
+
+(* 1. test files, ignored files, testData and non-Java files contribute nothing: the files read
+      are exactly the non-ignored .java files outside testData that are not test files *)
+Theorem C01_select_exact : forall walk p,
+    In p (get_files_with_filter java_code_file_filter walk) <->
+    In (p, false) walk /\ contains p "testData" = false /\ has_suffix ".java" p = true /\
+    java_test_file_filter p = false.
+Proof. exact select_exact. Qed.
+Print Assumptions C01_select_exact.
+
+(* 2. a unit contributes exactly one entry carrying its own name, kind, package, path and
+      annotations, whatever members and bodies it has *)
+Theorem C01_one_entry_per_unit : forall st u,
+    s_hasEnterClass st = false -> d_node (s_node st) = "" -> d_annots (s_node st) = [] ->
+    exists n,
+      s_classNodes (walk_unit st u) = (s_classNodes st ++ [n])%list /\
+      d_node n = u_name u /\ d_type n = unit_type u /\
+      d_pkg n = (if u_has_pkg u then u_pkg u else d_pkg (s_node st)) /\
+      d_path n = s_file st /\ d_annots n = u_annots u /\
+      s_hasEnterClass (walk_unit st u) = false.
+Proof. exact walk_unit_one_entry. Qed.
+Print Assumptions C01_one_entry_per_unit.
+
+(* 3. over any list of files and whatever the process analysed before: one entry per unit, in
+      order, nothing else *)
+Theorem C01_types_exact : forall units st ids,
+    s_hasEnterClass st = false ->
+    map node_sig (snd (analysis_files st ids units)) = map unit_sig units.
+Proof. exact analysis_files_types. Qed.
+Print Assumptions C01_types_exact.
+
+(* 4. statements and expressions of a body never create, rename or drop the entry of another
+      function: they only append calls to the entry of the function being walked *)
+Theorem C01_bodies_touch_only_their_function : forall evs st,
+    (exists cs, calls_at (fold_left body_event evs st) (cur_key st) = (calls_at st (cur_key st) ++ cs)%list /\
+                List.length cs <= List.length evs) /\
+    (forall k, k <> cur_key st -> mget (s_methodMap (fold_left body_event evs st)) k = mget (s_methodMap st) k).
+Proof. exact body_events_append_only. Qed.
+Print Assumptions C01_bodies_touch_only_their_function.
+
+(* non-vacuity *)
+Example C01_example :
+  map (fun d => (d_node d, d_type d, d_pkg d, d_path d, d_extend d,
+                 map (fun f => (f_name f, map (fun c => (c_pkg c, c_node c, c_fn c, p_sl (c_pos c), p_sc (c_pos c), p_ec (c_pos c))) (f_calls f)))
+                     (d_funcs d)))
+      (snd (analysis_files fstate0 ["p.q.A"] [ex_unit]))
+  = [("A", "Class", "p.q", "src/A.java", "Base",
+      [("run", [("r.s", "Foo", "go", 6, 6, 8); ("t", "Bar", "", 6, 25, 32); ("t", "Bar", "save", 7, 8, 12);
+                ("p.q", "A", "help", 7, 20, 24)])])].
+Proof. exact ex_unit_calls. Qed.
+Print Assumptions C01_example.
